@@ -71,7 +71,7 @@ func ceiling(s *slip.Scope, f slip.Object, args slip.List, depth int) slip.Value
 	if 1 < len(args) {
 		div = args[1]
 	}
-	num, div = slip.NormalizeNumber(num, div)
+	num, div = normalizeNumber(num, div)
 
 	switch tn := num.(type) {
 	case slip.Fixnum:
